@@ -228,3 +228,22 @@ CLAIMED["C01"]["text"] += " Since fix 3827ce7 there is no known finding for this
 CLAIMED["C15"]["text"] += (" Since fix 6ca17f0 (terminating construction in the example builder) there is no known finding; the check also runs every type graph of the C03 generators.")
 CLAIMED["C03"]["text"] += (" The check now also generates the reference forms {type: \"@T\"} and {or: [names / rule-sets]} with and without nullable, key shortcuts (required/optional, several matching keys) "
                            "and several unnamed keys per object under every additionalProperties form; fixes 7566a1d and 59f50c1 came from these streams.")
+CLAIMED["C01"]["text"] += (" Added (Schema/Machine.v + MachineProofs.v): C01_event_machine_equals_model - the event-level model of the validator (Tree.FeedLeaves over leaf stacks with "
+                           "identities; object/array/literal/null/any validators fed the scanner's events) returns exactly the verdict AND error code of the recursive model, for every schema and "
+                           "document; the extracted machine runs against the library on every check.")
+CLAIMED["C03"]["text"] += (" Added: C03_event_machine_accepts_iff_denotation - on a closed type graph in which every reference position has at least one validator (mprod; implied by the absence of pure "
+                           "alias cycles, lemma mprod_of_productive) the event-level machine (unions as several leaves sharing a parent, has_leaf, ErrOrRuleSetValidation when all fail, "
+                           "additionalProperties validators, nullable as a null-only leaf) accepts exactly the documents of the denotation maccepts; C03_event_machine_no_panic; "
+                           "C03_event_machine_empty_alias_refuted documents what happens behind the C09 known finding. The machine, maccepts and the python semantics are compared with the "
+                           "library on every generated graph (verdict and code).")
+CLAIMED["C08"]["text"] = CLAIMED["C08"]["text"].replace("PARTIAL. ", "", 1) + (
+    " Added (Schema/RulePipeline.v, RulePipelineSpec.v, RulePipelineProofs.v): a model of what Check does with the rules of one annotated node - the loader's left-to-right fold with "
+    "duplicate detection, the twelve compile passes in the library's order over an insertion-ordered constraint map, the allOf pass and the checker (compatibility matrix and banned pairs "
+    "taken from the tabx translation, example-obeys-rules) - with C08_verdict_order_independent (the verdict is invariant under every permutation of the written rules) and "
+    "C08_check_iff_statement (inside in_scope, Check succeeds iff the declarative transcription spec_ok of the statement holds); the three C08_statement_refuted_* witnesses delimit in_scope. "
+    "The pipeline model, spec_ok and the library are compared on 75k (quick) / 500k (thorough) generated cases per run incl. all permutations of sets of <= 4 rules.")
+CLAIMED["C08"]["technique"] = "Coq proof (sequential pipeline model over an ordered map = declarative statement; permutation invariance) + translated tables + generated correspondence on verdict and code"
+CLAIMED["C15"]["text"] = CLAIMED["C15"]["text"].replace("PARTIAL. ", "", 1) + (
+    " Added (Schema/Example.v, ExampleProofs.v): a model of the example builder as repaired by 6ca17f0 (strict construction with fall-back) with C15_example_accepted_by_type_graph - "
+    "whatever the strict builder returns for a node of a type graph with distinct keys is accepted by the set semantics of that node - and C15_plain_example_is_the_example; the builder "
+    "model's output shape is compared with Example() on the rule-free skeletons of the generated graphs.")
